@@ -26,6 +26,16 @@ pub mod vax {
         ensures #[trigger] <String as vstd::std_specs::ops::AddAssignSpec<&str>>::add_assign_req(&a, b);
     pub broadcast axiom fn axiom_string_add_assign(a: String, b: &str)
         ensures (#[trigger] <String as vstd::std_specs::ops::AddAssignSpec<&str>>::add_assign_spec(&a, b))@ == a@ + b@;
+    // `String == &str` and `&str == String` (the method `a.eq(b)` on a String and a str is specified in spec/std_strings.rs; the
+    // operator between a String and a REFERENCE to a str is another impl, and was open - `name == "add"` for `name.eq("add")`)
+    pub broadcast axiom fn axiom_string_eq_strref_obeys<'a>()
+        ensures #[trigger] <String as vstd::std_specs::cmp::PartialEqSpec<&'a str>>::obeys_eq_spec();
+    pub broadcast axiom fn axiom_string_eq_strref<'a>(a: String, b: &'a str)
+        ensures #[trigger] <String as vstd::std_specs::cmp::PartialEqSpec<&'a str>>::eq_spec(&a, &b) == (a@ == b@);
+    pub broadcast axiom fn axiom_strref_eq_string_obeys<'a>()
+        ensures #[trigger] <&'a str as vstd::std_specs::cmp::PartialEqSpec<String>>::obeys_eq_spec();
+    pub broadcast axiom fn axiom_strref_eq_string<'a>(a: &'a str, b: String)
+        ensures #[trigger] <&'a str as vstd::std_specs::cmp::PartialEqSpec<String>>::eq_spec(&a, &b) == (a@ == b@);
     pub open spec fn converse(o: Option<core::cmp::Ordering>) -> Option<core::cmp::Ordering> {
         match o {
             Some(core::cmp::Ordering::Less) => Some(core::cmp::Ordering::Greater),
@@ -38,7 +48,8 @@ pub mod vax {
         ensures #[trigger] <f64 as vstd::std_specs::cmp::PartialOrdSpec>::partial_cmp_spec(&a, &b) == converse(<f64 as vstd::std_specs::cmp::PartialOrdSpec>::partial_cmp_spec(&b, &a));
 }
 broadcast use {vax::axiom_string_eq_obeys, vax::axiom_string_eq, vax::axiom_f64_eq_sym, vax::axiom_f64_cmp_converse,
-               vax::axiom_string_add_assign_obeys, vax::axiom_string_add_assign_req, vax::axiom_string_add_assign};
+               vax::axiom_string_add_assign_obeys, vax::axiom_string_add_assign_req, vax::axiom_string_add_assign,
+               vax::axiom_string_eq_strref_obeys, vax::axiom_string_eq_strref, vax::axiom_strref_eq_string_obeys, vax::axiom_strref_eq_string};
 // R19 target for `String::from(E)`, E a &str (or a &String, through deref coercion): the string of the same characters
 #[verifier::external_body]
 pub fn verif_string_from(s: &str) -> (r: String)
